@@ -61,6 +61,13 @@ ValidAttrs(d0, dT, w, i) ==
   /\ Use(d0).use = "required" => i.n0 # "absent"
   /\ Use(dT).use = "required" => i.nT # "absent"
 
+(* The attribute declarations that count are those of the GOVERNING type: when xsi:type names a  *)
+(* SIMPLE type (on an element declared xs:anyType) the element may carry no attribute at all     *)
+(* besides the xsi: ones; xs:anyType itself has the attribute wildcard ##any / lax.               *)
+ValidUnderSimpleType(i) == \A n \in AttrNames : i[n] = "absent"
+ValidUnderAnyType(i) == ValidAttrs(NoDecl, NoDecl, [c |-> "any", pc |-> "lax"], i)
+ASSUME \A i \in Inst : ValidUnderSimpleType(i) => \A w \in Wild : ValidAttrs(NoDecl, NoDecl, w, i)
+
 (* decoded attribute dictionary of a VALID element: name -> "int1" | "int2" |   *)
 (* "raw:<class>" (text kept as is: no declaration governs the value)           *)
 DecodedVal(d0, dT, w, n, v) ==
